@@ -217,6 +217,22 @@ func CorpusHistories(scratch string, names map[string]bool) ([]*History, []strin
 			}
 			return nil
 		}, func(g *Genesis) { easyParams(g); g.Params.SlashRatio = 1 }},
+		// slashing forfeits a validator's whole (tiny) self stake while a delegation to it survives; when the
+		// validator then stakes to itself again its record is the SAME record: the surviving delegation stays
+		// bonded next to the new self stake
+		{"self-stake-wiped-by-slashing-then-restaked", 2, 2, 8, func(s *Sim, h int64) []*TxSpec {
+			switch h {
+			case 2:
+				return []*TxSpec{s.TxStake(s.User(0), s.Val(0).Addr, 5)}
+			case 3:
+				s.scriptEvidence = [][]byte{s.Val(0).Addr}
+			case 4:
+				return []*TxSpec{s.TxStake(s.Val(0), s.Val(0).Addr, 1)}
+			case 6:
+				return []*TxSpec{s.TxStake(s.User(1), s.Val(0).Addr, 2)}
+			}
+			return nil
+		}, func(g *Genesis) { easyParams(g); g.Params.SlashRatio = 50; g.Vals[0].Power = 1 }},
 		// an option reaches 2/3 of the voting power and loses it again when a voter changes its choice:
 		// at the end of the window nobody holds 2/3, the proposal must be dropped and nothing applied
 		{"revote-away-from-majority", 3, 2, 13, func(s *Sim, h int64) []*TxSpec {
@@ -494,9 +510,12 @@ func CorpusHistories(scratch string, names map[string]bool) ([]*History, []strin
 					if string(st.From) == string(y.Addr) {
 						bad := s.TxUnstake(s.User(1), st.To, st.Hash)
 						bad.Note = "unstake-not-owner"
+						// ... nor may the validator the stake is bonded to release it ("unstaking from itself")
+						byVal := s.TxUnstake(s.Val(0), st.To, st.Hash)
+						byVal.Note = "unstake-not-owner-by-the-delegatee"
 						own := s.TxUnstake(y, st.To, st.Hash)
 						more := s.TxStake(s.User(1), s.Val(0).Addr, 50)
-						return []*TxSpec{bad, own, more}
+						return []*TxSpec{bad, byVal, own, more}
 					}
 				}
 				return []*TxSpec{s.TxStake(y, s.Val(0).Addr, 100)}
